@@ -150,7 +150,7 @@ func compareModel(r *Runner, clause string, ev *slashEval) bool {
 		got := ev.post.PosValue(p)
 		// amount moved on this validator: at most what it holds
 		tol := tolMax(ev.pre, ev.post, p.Val, p.Denom, maxRat(ev.pre.ValTokens(p.Val, p.Denom), ev.post.ValTokens(p.Val, p.Denom)))
-		tol = rmul(tol, growth(ev.pre.PosValue(p), want))
+		tol = radd(rmul(tol, growth(ev.pre.PosValue(p), want)), rmul(want, getR(ev.model.RelErr, p.Denom)))
 		if !within(want, got, tol) {
 			kind := "bonded"
 			if ev.destPos[p] {
@@ -243,7 +243,7 @@ func (m *monC06) OnStep(r *Runner, st *Step) {
 		// validator-share total shrinks and every remaining position scales by the same second factor)
 		base := rmul(ev.scaled.PosValue(p), ev.redistribution(p.Denom))
 		got := post.PosValue(p)
-		tol := rmul(tolMax(pre, post, p.Val, p.Denom, maxRat(base, got)), growth(pre.PosValue(p), base))
+		tol := radd(rmul(tolMax(pre, post, p.Val, p.Denom, maxRat(base, got)), growth(pre.PosValue(p), base)), rmul(base, getR(ev.model.RelErr, p.Denom)))
 		if got.Cmp(rsub(base, tol)) < 0 {
 			r.Violate("C06.a", "position-lost-value", fmt.Sprintf("slash of %s by %s: position %s worth %s, proportional rule gives %s", short(ev.val), rstr(ev.f), p, rstr(got), rstr(base)))
 			return
@@ -398,7 +398,7 @@ func (m *monC07) OnStep(r *Runner, st *Step) {
 			wantHi = want
 		}
 		got := post.PosValue(p)
-		tol := rmul(radd(tolMax(st.Pre, post, p.Val, p.Denom, maxRat(base, byPos[p])), big.NewRat(int64(len(ev.groups)), 1)), growth(st.Pre.PosValue(p), rmul(base, G)))
+		tol := radd(rmul(radd(tolMax(st.Pre, post, p.Val, p.Denom, maxRat(base, byPos[p])), big.NewRat(int64(len(ev.groups)), 1)), growth(st.Pre.PosValue(p), rmul(base, G))), rmul(rmul(base, G), getR(ev.model.RelErr, p.Denom)))
 		if got.Cmp(rsub(want, tol)) >= 0 && got.Cmp(radd(wantHi, tol)) <= 0 {
 			continue
 		}
